@@ -5,6 +5,7 @@ import (
 
 	"github.com/google/uuid"
 	"github.com/semafind/semadb/models"
+	"github.com/semafind/semadb/shard/cache"
 )
 
 // ---- C07: a write batch is all-or-nothing. The harness store rolls back when the write
@@ -251,4 +252,46 @@ func VerifFaultedBatchWithSlowGoroutine() {
 		vassert("failed-batch-leaves-every-answer-unchanged", sameSnapshot(before, after, ids))
 	}
 	vassert("no-storage-access-after-the-transaction-ended", st.useAfterEnd == 0)
+}
+
+// ---- C08: answers do not depend on the cache limit (unlimited / no shared caching / a limit
+// so small that every cache is pruned after each transaction): the same history of writes and
+// searches yields the same observations under all three.
+func VerifAnswersIndependentOfCacheLimit() {
+	a, b := uuid.UUID{1}, uuid.UUID{2}
+	ids := []uuid.UUID{a, b}
+	steps := vparam("STEPS", 4)
+	ops := make([]int, steps)
+	for i := range ops {
+		ops[i] = nondetIntRange(0, 4)
+	}
+	run := func(limit int64) []snapshot {
+		s, _ := verifShard(atomicSchema())
+		s.cacheManager = cache.NewManager(limit)
+		var out []snapshot
+		for _, op := range ops {
+			switch op {
+			case 0:
+				s.InsertPoints([]models.Point{{Id: a, Data: vdoc(vecDoc(0, 1, 1))}})
+			case 1:
+				s.InsertPoints([]models.Point{{Id: b, Data: vdoc(vecDoc(1, 2, 2))}})
+			case 2:
+				s.UpdatePoints([]models.Point{{Id: a, Data: vdoc(vecDoc(2, 5, 5))}})
+			case 3:
+				s.DeletePoints(map[uuid.UUID]struct{}{a: {}})
+			case 4:
+				s.DeletePoints(map[uuid.UUID]struct{}{b: {}})
+			}
+			out = append(out, observe(s, ids))
+		}
+		return out
+	}
+	unlimited := run(-1)
+	none := run(0)
+	tiny := run(1)
+	vcover("reached")
+	for i := range unlimited {
+		vassert("no-shared-caching-gives-the-same-answers", sameSnapshot(unlimited[i], none[i], ids))
+		vassert("pruned-caches-give-the-same-answers", sameSnapshot(unlimited[i], tiny[i], ids))
+	}
 }
